@@ -33,7 +33,7 @@ from harness import parser_obs as P
 logging.disable(logging.CRITICAL)
 
 PROPERTY = 'C14'
-LEAN_TARGETS = ['PxProofs.C14']
+LEAN_TARGETS = ['PxProofs.C14', 'PxProofs.C14Handler']
 THEOREMS = [
     'Px.Connect.C14_roundtrip',
     'Px.Connect.C14_roundtrip_userinfo_v6_noport',
@@ -47,6 +47,8 @@ THEOREMS = [
     'Px.Connect.C14_reject_userinfo_no_colon',
     'Px.Connect.C14_reject_two_at',
     'Px.Connect.C14_reject_no_connect',
+    'Px.Connect.C14_connect_only_parsed',
+    'Px.Connect.C14_end_to_end',
     'Px.Connect.C14_no_misrouting_authority',
     'Px.Connect.C14_no_misrouting',
     'Px.Connect.C14_port_text',
@@ -64,7 +66,10 @@ ASSUMPTIONS = [
     'name resolution / IDNA encoding inside socket.create_connection is outside the model',
     'the request arrives in one segment (segmentation independence is C03)',
 ]
-EXHAUSTIVE = {}
+# the cases are cheap (< 0.3 ms each) and share one in-process World: running them in the engine's fork pool
+# is several times slower than running them inline
+NO_FORK = True
+EXHAUSTIVE = {}   # only a sub-family is exhaustive (authorities over b'a1:@/[]' up to length 6 / 3)
 EXPLANATION = ('port 0 (http://h:0/ connects to port 80; CONNECT h:0 is dropped without a response), userinfo without '
                'a colon (rejected with 400) [D8b] and userinfo in front of a port-less IPv6 literal (host becomes the '
                'whole authority) [D8c] are kept outside the oracle domain unless known_findings.json lists them open')
@@ -715,7 +720,7 @@ def damage(rng, t):
 HAND_DAMAGED = [
     b'http://[::1/', b'http://::1]/', b'http://::1/', b'http://::1:80/', b'http://1:2:3:4:5:6:7:8/', b'http://h::80/',
     b'http://h:80:80/', b'http://:80/', b'http:///', b'http:///p', b'http://', b'http://@h/', b'http://a@b@c/',
-    b'http://a:b@c:d@e/', b'http://user@h/', b'http://u:p:q@h/', b'http://h:/', b'http://h:+80/', b'http://h:8_0/',
+    b'http://a:b@c:d@e/', b'http://a:b@c@d/', b'http://a:b@c@d:81/x', b'http://user@h/', b'http://u:p:q@h/', b'http://h:/', b'http://h:+80/', b'http://h:8_0/',
     b'http://h:0x50/', b'http://h:-80/', b'http://h:65536/', b'http://h:99999/', b'http://h:080/', b'http://h:00/',
     b'http://\xff/', b'http://h\xff:1:2/', b'http://[::\xff]:80/', b'HTTP://h/', b'ftp://h/', b'https://h/', b'//h/x',
     b'//h:0/x', b'///x', b'h', b'h:80', b'[::1]:80', b'*', b'', b'http://[]/', b'http://[]:80/', b'http://[/',
@@ -793,7 +798,7 @@ def corpus():
 
 def generate(rng, tier):
     big = tier == 'thorough'
-    n = 9000 if big else 900
+    n = 25000 if big else 900
     for i in range(n):
         form = rng.choice(['origin', 'absolute', 'absolute', 'absolute', 'authority', 'authority'])
         s = gen_spec(rng, form)
@@ -833,6 +838,16 @@ def generate(rng, tier):
         yield _mk('url', 'damaged', None, raw=raw)
         if b' ' not in raw and rng.random() < 0.3:
             yield _mk('req', 'damaged', None, rng.choice(['GET', 'CONNECT']), raw=raw)
+    # exhaustive small scope: every string over the delimiter alphabet up to a length, as the
+    # authority of an absolute-form target and as a bare (authority-form / origin-form) target
+    import itertools
+    alpha2 = b'a1:@/[]'
+    for n in range(0, (7 if big else 4)):
+        for tup in itertools.product(alpha2, repeat=n):
+            a = bytes(tup)
+            yield _mk('url', 'damaged', None, raw=b'http://' + a)
+            if a:
+                yield _mk('url', 'damaged', None, raw=a)
     for _ in range(600 if big else 80):
         h = rng.choice(ROUTE_HOSTS + [gen_ipv6(rng).decode(), gen_ipv4(rng).decode(), gen_regname(rng).decode('utf-8')])
         if rng.random() < 0.3:
